@@ -161,7 +161,7 @@ def gen_plan(run_seed, tier, index):
                   ['my ns', '日本/ns', 'ns\x01'])
     n = r.randint(2, 8)
     ops = opgen.gen_program(stream(run_seed, 'ops'), model,
-                            'root/cimv2', n)
+                            'root/cimv2', n, with_export=True)
     ar = stream(run_seed, 'adv')
     nadv = 0
     out = []
